@@ -476,6 +476,8 @@ def check(prop):
         rep.coverage["traces_validated_against_impl"] = rep.coverage.get("traces_validated_against_impl", 0) + n
     if prop == "C04":
         rep.coverage.update(io_faults(rep, workdir("C04-faults"), random.Random(seed()), tier() == "quick"))
+        from cli_engine import cli_layer
+        cli_layer(rep, "C04", workdir("C04-cli"))
     rep.coverage["exhaustive"] = False
     rep.coverage["rule"] = ("TLC: all reachable states of Sched.tla for the listed constants. Code: every gate-level schedule "
                             "(DFS) of each scenario unless truncated (see truncated_scenarios), judged by the property's "
